@@ -38,11 +38,31 @@ def _stmts(body):
     return out
 
 
+def _alpha(body, decls):
+    """rename locals to canonical names: `decls` = [(canonical, regex with one group matching the declared name)], applied in order
+    (a later regex may mention an earlier canonical name)"""
+    for canon, rx in decls:
+        m = re.search(rx, body)
+        if not m:
+            raise ExtractError("local `%s` not found (pattern %s)" % (canon, rx))
+        name = m.group(1)
+        if name != canon:
+            if re.search(r"\b%s\b" % re.escape(canon), body):
+                raise ExtractError("cannot rename local %s to %s: name already in use" % (name, canon))
+            body = re.sub(r"\b%s\b" % re.escape(name), canon, body)
+    return body
+
+
 def extract_asm1(tree):
     src = csrc.strip_comments(csrc.read(tree, "src/core/asm.c"))
     # `#if defined(JANET_BSD) … if (_setjmp(…)) { #else if (setjmp(…)) { #endif`: keep one branch so that braces balance
     src = re.sub(r"#if[^\n]*\n([^#]*?)#else[^\n]*\n([^#]*?)#endif[^\n]*\n", lambda m: m.group(2), src)
-    body = _squash(csrc.func_body(src, "janet_asm1"))
+    raw = csrc.func_body(src, "janet_asm1")
+    # locals may be renamed: the scratch value `x`, the source `s`, the symbol-map entry `ss` and its tuple `tup`
+    raw = _alpha(raw, [("x", r"\bJanet\s+(\w+)\s*;"), ("s", r"\bJanet\s+(\w+)\s*=\s*source\s*;"),
+                       ("ss", r"\bJanetSymbolMap\s+(\w+)\s*;"), ("def", r"\bJanetFuncDef\s*\*\s*(\w+)\s*;")])
+    raw = re.sub(r"\(void\)\s*\w+\s*;", "", raw)
+    body = _squash(raw)
     def pos(rx, what, unique=True):
         ms = list(re.finditer(rx, body))
         if not ms or (unique and len(ms) != 1):
@@ -110,20 +130,33 @@ def _operand(expr):
 def extract_verify(tree):
     src = csrc.strip_comments(csrc.read(tree, "src/core/bytecode.c"))
     body = csrc.func_body(src, "janet_verify")
+    body = _alpha(body, [("vargs", r"\bint\s+(\w+)\s*=\s*!!\s*\(\s*def->flags\s*&\s*JANET_FUNCDEF_FLAG_VARARG\s*\)\s*;"),
+                         ("maxslot", r"\bint32_t\s+(\w+)\s*=\s*def->arity\s*\+\s*vargs\s*;"),
+                         ("sc", r"\bint32_t\s+(\w+)\s*=\s*def->slotcount\s*;"),
+                         ("i", r"\bfor\s*\(\s*(\w+)\s*=\s*0\s*;\s*\w+\s*<\s*def->bytecode_length\s*;"),
+                         ("instr", r"\buint32_t\s+(\w+)\s*=\s*def->bytecode\s*\[\s*i\s*\]\s*;"),
+                         ("type", r"\benum\s+JanetInstructionType\s+(\w+)\s*=\s*janet_instructions"),
+                         ("jumpdest", r"\bint32_t\s+(\w+)\s*=\s*i\s*\+"),
+                         ("sm", r"\bconst\s+JanetSymbolMap\s*\*\s*(\w+)\s*="),
+                         ("lastop", r"\buint32_t\s+(\w+)\s*=\s*def->bytecode\s*\[\s*def->bytecode_length\s*-\s*1\s*\]")])
+    body = re.sub(r"\(void\)\s*\w+\s*;", "", body)
     sq = _squash(body)
     head = sq[:sq.index("for(i=0;i<def->bytecode_length;i++)")]
     want = [r"intvargs=!!\(def->flags&JANET_FUNCDEF_FLAG_VARARG\);", r"int32_tmaxslot=def->arity\+vargs;", r"int32_tsc=def->slotcount;",
             r"if\(def->bytecode_length==0\)return1;", r"if\(sc<0\|\|sc>(0x[0-9A-Fa-f]+|\d+)\)return2;",
             r"if\(def->arity<0\|\|def->arity>sc\)return2;", r"if\(def->min_arity<0\|\|def->min_arity>def->max_arity\)return2;",
             r"if\(maxslot>sc\)return2;"]
-    at, maxsc = 0, None
+    # declarations, then `bytecode_length == 0` (return 1) before the four tests that return 2 (those in any order: same code)
+    at, maxsc = {}, None
     for w in want:
-        m = re.compile(w).search(head, at)
+        m = re.compile(w).search(head)
         if not m:
-            raise ExtractError("janet_verify: header check %s not found (in order)" % w)
+            raise ExtractError("janet_verify: header statement %s not found" % w)
         if m.groups():
             maxsc = csrc.cint(m.group(1))
-        at = m.start()
+        at[w] = m.start()
+    if not all(at[want[3]] < at[w] for w in want[4:]) or not all(at[w] < at[want[3]] for w in want[:3]):
+        raise ExtractError("janet_verify: order of the header statements changed")
     if len(re.findall(r"return\d+;", head)) != 5:
         raise ExtractError("janet_verify: header has an unexpected number of early returns")
     if not re.search(r"if\(\(instr&0x7F\)>=JOP_INSTRUCTION_COUNT\)\{?return3;", sq) or \
@@ -208,6 +241,10 @@ def extract_slot_operands(tree):
         calls.sort(key=lambda c: int(c[2]))
         if [int(c[2]) for c in calls] != list(range(1, len(calls) + 1)):
             raise ExtractError("read_instruction: operands of %s are not argt[1..n]" % cur)
+        anc = re.search(r"JanetAssembler\s*\*\s*(\w+)\s*=\s*a\s*;", body)
+        ancn = anc.group(1) if anc else "b"
+        calls = [("b" if who == ancn else who, oat, argi) for who, oat, argi in calls]
+        body = re.sub(r"\b%s\b" % re.escape(ancn), "b", body)
         for who, oat, argi in calls:
             if who != "a":
                 foreign.append((tuple(cur), who, oat, int(argi)))
